@@ -783,15 +783,15 @@ func concCase(t *testing.T, r *vlib.Run, fam string, idx int) {
 }
 
 var theSpec = vlib.Spec{
-		Level: "exploration",
-		Rule: "synctest bubbles; seq: PRNG scripts of 10-50 steps (Set/Shutdown/Resume on 4 service names incl. a never/late-registered one, Watch with per-Send behaviour pass/sleep/gate/fail, open gate, cancel, Check, advance time) with synctest.Wait() and a quiescent audit after every step; conc: 2-6 batches of 2-6 goroutines x 1-5 such calls released at the same virtual instant under -race, quiescent audit between batches; history oracles (interval-stamped) at the end; distinct = feature flags (gated/sleeping Sends, skipped intermediate statuses, shutdown/resume, ignored set, late registration, failed Send, cancel, several watchers) and their combination per case with stream count",
-		Assumptions: []string{
-			"reference: map service->status + shutdown flag, written from the statement; never-registered services stay SERVICE_UNKNOWN/NotFound also during shutdown (R2)",
-			"mutations are serialised by the monitor (channel lock) to obtain a total order; Watch/Check/Send are judged against the interval of model states between their call and return stamps",
-			"quiescence = synctest.Wait(); a health.Server call still pending there is reported as blocked by a slow watcher",
-		},
-		Floor: 25,
-	}
+	Level: "exploration",
+	Rule:  "synctest bubbles; seq: PRNG scripts of 10-50 steps (Set/Shutdown/Resume on 4 service names incl. a never/late-registered one, Watch with per-Send behaviour pass/sleep/gate/fail, open gate, cancel, Check, advance time) with synctest.Wait() and a quiescent audit after every step; conc: 2-6 batches of 2-6 goroutines x 1-5 such calls released at the same virtual instant under -race, quiescent audit between batches; history oracles (interval-stamped) at the end; distinct = feature flags (gated/sleeping Sends, skipped intermediate statuses, shutdown/resume, ignored set, late registration, failed Send, cancel, several watchers) and their combination per case with stream count",
+	Assumptions: []string{
+		"reference: map service->status + shutdown flag, written from the statement; never-registered services stay SERVICE_UNKNOWN/NotFound also during shutdown (R2)",
+		"mutations are serialised by the monitor (channel lock) to obtain a total order; Watch/Check/Send are judged against the interval of model states between their call and return stamps",
+		"quiescence = synctest.Wait(); a health.Server call still pending there is reported as blocked by a slow watcher",
+	},
+	Floor: 25,
+}
 
 func TestVerifC54(t *testing.T) {
 	r := vlib.Start(t, "C54")
